@@ -79,13 +79,16 @@ func c04Run(c *mon.Ctx, unit int) {
 		// ---- forward: Validate(example) on the same schema object and on a fresh one
 		ex := gen.ExampleVal(s.Root)
 		doc := ex.Text()
-		for i, obs := range []lib.Obs{built.validate(doc), lib.Validate(sp, doc)} {
+		for i, obs := range []lib.Obs{built.validate(doc), lib.Validate(sp, doc), built.validateChecked(doc)} {
 			c.Eval(1)
 			c.Count("forward: Validate(example) calls", 1)
 			if !obs.OK {
 				which := "same schema object"
 				if i == 1 {
 					which = "fresh schema object"
+				}
+				if i == 2 {
+					which = "same schema object, the Document was Check()ed / Len()ed before"
 				}
 				c.Violate("forward", c04Case{Spec: sp, Doc: doc}, "accept", obs.String(), "Check accepted the schema but its own example does not validate ("+which+")")
 				break
@@ -144,6 +147,17 @@ func c04OrAcrossTypes(c *mon.Ctx, r *mon.Rng) {
 	case obs.Pos != want:
 		c.Violate("converse", c04Case{Spec: sp, Pos: want}, "reject at "+strconv.Itoa(want), fmt.Sprintf("reject at %d (code %d)", obs.Pos, obs.Code), "Check reports another position than the offending value (or rule-sets in root and added types)")
 	}
+}
+
+// c04CheckTwice: Check, and Check once more on the same schema object.
+func c04CheckTwice(sp lib.Spec) (first, second lib.Obs) {
+	s, o := lib.Build(sp)
+	if !o.OK {
+		return o, o
+	}
+	first = lib.Safe(s.Check)
+	second = lib.Safe(s.Check)
+	return first, second
 }
 
 // c04Plant corrupts one node so that its example value violates one of its own rules.
@@ -292,13 +306,15 @@ func c04Plant(c *mon.Ctx, r *mon.Rng, ec *gen.EveryCase) {
 		}
 		tried++
 		sp := specOf(clone, model.Style{})
-		obs := lib.Check(sp)
+		obs, again := c04CheckTwice(sp)
 		c.Eval(1)
 		c.Count("converse: planted "+firstWords(class, 5), 1)
 		want := target.Pos
 		switch {
 		case obs.Panic != "":
 			c.Violate("check-panic", c04Case{Spec: sp}, "no panic", obs.String(), "Check panicked")
+		case !obs.OK && obs.Pos == want && (again.OK || again.Pos != want):
+			c.Violate("converse-twice", c04Case{Spec: sp, Pos: want}, "reject at "+strconv.Itoa(want), c17ObsPos(again), "the second Check on the same schema object no longer reports the offending value: "+class)
 		case obs.OK:
 			c.Violate("converse", c04Case{Spec: sp, Pos: want}, "reject at "+strconv.Itoa(want), "accept", "Check accepts a schema whose example violates its own rule: "+class)
 		case obs.Pos != want:
@@ -377,6 +393,12 @@ func init() {
 					return "accept"
 				}
 				return "reject at " + strconv.Itoa(o.Pos)
+			},
+			"converse-twice": func(raw json.RawMessage) string {
+				var cs c04Case
+				json.Unmarshal(raw, &cs)
+				_, again := c04CheckTwice(cs.Spec)
+				return c17ObsPos(again)
 			},
 			"check-panic": func(raw json.RawMessage) string {
 				var cs c04Case
